@@ -122,8 +122,8 @@ Definition tm_new : treemap := [].
 Definition tm_is_empty (t : treemap) : bool := match t with [] => true | _ => false end.
 
 (* RowIdTreeMap::len: try_fold over the values; None as soon as a Full is met.
-   (u64 overflow of the sum needs 2^32 fragments each holding a full bitmap; see Proofs: the sum is
-   < 2^64 whenever the map has fewer than 2^32 entries.) *)
+   (The u64 overflow of `next + acc` is not modelled: it needs 2^32 fragments each holding a full
+   bitmap, 2^41 bytes; listed among the assumptions of the property.) *)
 Fixpoint tm_len_from (acc : N) (t : treemap) : option N :=
   match t with
   | [] => Some acc
